@@ -1,4 +1,8 @@
+import os, re
 from kanirun import H, FAST
+from mirsym import mir, smt, modeb
+from mirsym_run import Q
+from common import *
 
 LEVEL = "model_checking"
 EXPLANATION = ("Bounded model checking (Kani/CBMC) of the real chunk-cache name/header parsers and the sub-range slicing "
@@ -8,7 +12,7 @@ ASSUMPTIONS = [
     "core::fmt::write / alloc::fmt::format stubbed to no-ops (error texts are not the subject)",
     "--no-memory-safety-checks: pointer checks off (safe Rust in chunk_cache; base64 decoding is safe code); panics, overflow and bounds checks stay on",
 ]
-OUTSIDE = ["histories of put/get/evict/re-open against a real directory", "CRC-32 error detection itself", "thread interleavings"]
+OUTSIDE = ["histories of put/get/evict/re-open against a real directory", "CRC-32 error detection itself", "thread interleavings (the verified flag is shared between clones of an item: ordering obligations are per path, not per interleaving)"]
 
 _st = ["alloc::fmt::format", "core::fmt::write"]
 KANI = [
@@ -19,3 +23,62 @@ KANI = [
     H("hk_cache", "c12::name_total_28", "CacheItem::parse never panics on any 28-byte file name", unwind=8, flags=FAST,
       covers=["some name parses"], functions=["chunk_cache::disk::cache_item::CacheItem::parse"], bounds="28 symbolic bytes", stubs=_st),
 ]
+
+
+# ---- mirsym Mode B over DiskCache::get_impl: verify-before-use -------------------------------------------------------
+
+def _switch_edges(g, cond_pat):
+    """(block, true_target, false_target) of the switch on a bool computed by a statement matching cond_pat in that block"""
+    out = []
+    for b in g.nodes:
+        t = g.term[b]
+        if t["kind"] != "switch":
+            continue
+        for st in g.fn.blocks[b][0]:
+            m = re.match(r"(_\d+) = " + cond_pat, st)
+            if m and re.search(r"(move|copy) %s$" % m.group(1), t["operand"]):
+                f = [v for k, v in t["targets"] if k == 0]
+                if f and t["otherwise"]:
+                    out.append((b, t["otherwise"], f[0]))
+    return out
+
+
+def build_get(fns):
+    g = modeb.CFG(mir.find_fn(fns, r"disk::<impl at [^>]*>::get_impl$"))
+    crc = g.blocks_calling(r"crc32_from_reader$")
+    ver = g.blocks_calling(r"VerificationCell::<.*>::verify$")
+    isv = g.blocks_calling(r"VerificationCell::<.*>::is_verified$")
+    use = g.blocks_calling(r"get_range_from_cache_file$")
+    rm = g.blocks_calling(r"DiskCache::remove_item$")
+    hdr = g.blocks_calling(r"CacheFileHeader::deserialize")
+    eq = _switch_edges(g, r"Eq\(")
+    if not (crc and ver and isv and use and rm and hdr and eq):
+        raise LookupError("get_impl shape not recognised crc=%s verify=%s is_verified=%s use=%s remove=%s header=%s eq=%s" % (crc, ver, isv, use, rm, hdr, eq))
+    sc = smt.Script("c12_get_verify_before_use")
+    # the is_verified switch: successor of the call block
+    isv_sw = []
+    for b in isv:
+        nb = g.term[b]["target"]
+        t = g.term[nb]
+        if t["kind"] == "switch":
+            f = [v for k, v in t["targets"] if k == 0]
+            isv_sw.append((nb, t["otherwise"], f[0]))
+    if not isv_sw:
+        raise LookupError("is_verified is not branched on")
+    for (b, tt, ff) in isv_sw:
+        modeb.no_path_query(g, sc, "an unverified item reaches the data only through the checksum computation", [ff], use, crc)
+    # verify() is reachable from the checksum only through the 'checksums equal' edge
+    eq_after_crc = [(b, tt, ff) for (b, tt, ff) in eq]
+    modeb.no_path_query(g, sc, "an item is marked verified only after its checksum compared equal", modeb.after(g, crc), ver, [],
+                        avoid_edges=set((b, tt) for (b, tt, ff) in eq_after_crc))
+    modeb.no_path_query(g, sc, "an item is marked verified only after its checksum was computed", [g.entry], ver, crc)
+    for (b, tt, ff) in eq_after_crc:
+        modeb.no_path_query(g, sc, "a checksum mismatch never reaches the data without a new lookup (item removed, loop restarts)", [ff], use, rm)
+    modeb.no_path_query(g, sc, "the data is sliced only after the header was parsed from the file", [g.entry], use, hdr)
+    modeb.no_path_query(g, sc, "witness: data reachable", [g.entry], use, [], expect="sat", kind="witness")
+    modeb.no_path_query(g, sc, "witness: verify reachable", [g.entry], ver, [], expect="sat", kind="witness")
+    return [sc]
+
+
+SMT = [Q("c12_get_verify_before_use", "get: checksum before use, verified flag only after an equal checksum, mismatch -> removal", "chunk_cache", build_get,
+         functions=["chunk_cache::disk::DiskCache::get_impl"], bounds="all CFG paths", solvers=("z3", "cvc5-bv"))]
